@@ -603,6 +603,10 @@ Proof. reflexivity. Qed.
 Example guards_simulate : guards_of "utils.simulation:simulate_statevector_outcomes" =
   ["inst.operation.condition_bits"; "len(inst.clbits) != 0"].
 Proof. reflexivity. Qed.
+(* position fact: the condition guard is the first statement of the per-instruction loop, before any branch on the
+   operation kind, as api_simulate models it (sim_refuses tests si_cond for measure/reset and gates alike) *)
+Example sim_condition_guard_first : c18_sim_cond_guard_first = true.
+Proof. reflexivity. Qed.
 Example guards_mgo : guards_of "utils.observable_grouping:most_general_observable" =
   ["len(commuting_observables) == 0"; "not isinstance(obs, Pauli)"; "len(obs) != num_qubits"; "rv_i != _I"].
 Proof. reflexivity. Qed.
